@@ -1079,11 +1079,17 @@ func (sc *SpecCtx) mapNameOf(s string) ([]string, error) {
 	if err != nil || ty == nil {
 		return nil, fmt.Errorf("all(%s): %v", s, err)
 	}
+	f := s[i+1:]
+	if _, isIface := ty.Underlying().(*types.Interface); isIface {
+		if g, ok := sc.vc.p.ghosts[typeName(ty)+"."+f]; ok {
+			return []string{"G$" + typeName(ty) + "$" + g.Name}, nil
+		}
+		return nil, fmt.Errorf("all(%s): no such ghost field on the interface", s)
+	}
 	st, ok := derefStruct(ty)
 	if !ok {
 		return nil, fmt.Errorf("all(%s): not a struct", s)
 	}
-	f := s[i+1:]
 	if g, ok := sc.vc.p.ghosts[typeName(st)+"."+f]; ok {
 		return []string{"G$" + typeName(st) + "$" + g.Name}, nil
 	}
